@@ -254,8 +254,10 @@ Definition known_tag (c : case_C16) : N :=
   let expl_leaf := h_leafnode c || cls_F15 c || cls_F20 c in
   let expl_clean := h_raise_clean c || cls_F7 c || cls_F20 c || cls_F15 c || cls_F19 c in
   let expl_xcont := h_export_contained c || cls_F19 c in
-  let expl_icont := h_import_contained c || cls_F6 c in
-  let expl_over := h_no_overwrite c || cls_F6 c in
+  (* a root job ('' / '.') that a callable schema does recognise makes str.startswith('') true for
+     every member of a zip archive: the F6 mechanism with the F18 root *)
+  let expl_icont := h_import_contained c || cls_F6 c || cls_F18 c in
+  let expl_over := h_no_overwrite c || cls_F6 c || cls_F18 c in
   let expl_round := h_roundtrip c || cls_F6 c || cls_F18 c || cls_F7 c || cls_F20 c || cls_F15 c || cls_F19 c || expl_F21 c in
   if h_src c && expl_unique && expl_leaf && expl_clean && expl_xcont && expl_icont && expl_over && expl_round then
     (if cls_F7 c then 1 else if cls_F15 c then 2 else if cls_F6 c then 3 else if cls_F18 c then 4
